@@ -101,3 +101,9 @@ func completeIndex(index []tensor.Range, dims []int) (cidx []tensor.Range) {
 
 	return cidx
 }
+
+func copiedIndex(index []tensor.Range) (cidx []tensor.Range) {
+	cidx = make([]tensor.Range, len(index))
+	copy(cidx, index)
+	return cidx
+}
